@@ -91,6 +91,13 @@ def run_shard(mod, ctx: Ctx, props: dict[str, Any], replay_case: Any = None) -> 
                     ctx.count("case_watchdog_fired")
                     if ctx.counters["case_watchdog_fired"] >= 3:
                         break
+                except Inconclusive:
+                    raise
+                except Exception as e:  # noqa: BLE001 - a crash of the harness itself is never a verdict
+                    ctx.inconclusive(f"harness error while judging a case: {type(e).__name__}: {str(e)[:160]} @ {core.short_tb(e)[-300:]!r}")
+                    ctx.count("harness_errors")
+                    if ctx.counters["harness_errors"] >= 3:
+                        break
                 if not ctx.more():
                     ctx.count("stopped_on_time_cap")
                     break
